@@ -578,6 +578,9 @@ func (state *RuntimeState) idpOpenIDCValidCodeVerifier(clientId string, codeVeri
 }
 
 func (state *RuntimeState) idpOpenIDCTokenHandler(w http.ResponseWriter, r *http.Request) {
+	if state.sendFailureToClientIfLocked(w, r) {
+		return
+	}
 
 	// MUST be POST https://openid.net/specs/openid-connect-core-1_0.html 3.1.3.1
 	if !(r.Method == "POST") {
@@ -904,6 +907,9 @@ type openidConnectUserInfo struct {
 
 func (state *RuntimeState) idpOpenIDCUserinfoHandler(w http.ResponseWriter,
 	r *http.Request) {
+	if state.sendFailureToClientIfLocked(w, r) {
+		return
+	}
 	if !(r.Method == "GET" || r.Method == "POST" || r.Method == "OPTIONS") {
 		logger.Printf("Invalid Method for Userinfo Handler")
 		state.writeFailureResponse(w, r, http.StatusBadRequest,
